@@ -155,6 +155,7 @@ def build_unit(name, probe=False):
                 m4 = re.match(r'tail\s+"(.*)"$', ln)
                 m5 = re.match(r'index\s+(\w+)(?:#(\d+))?(?:\s+then=(\w+))?\s+"(.*)"$', ln)
                 m6 = re.match(r'range\s+(\w+)(?:#(\d+))?\s+"(.*)"$', ln)
+                m7 = re.match(r'cond(?:\s+#(\d+))?\s+"(.*)"$', ln)
                 if m4:
                     # trailing expression of the body (after the last `;` / `}` at nesting depth 1; the whole body if there is none)
                     from rx import lex as _lexT
@@ -235,6 +236,31 @@ def build_unit(name, probe=False):
                         break
                     if text is None:
                         raise ExtractError(f'lost anchor: range loop over `{m6.group(1)}` #{want} not found in {relpath}::{fname}')
+                elif m7:
+                    # condition of the k-th `if` / `else if` of the body, in source order (`if let` is not counted): template placeholder {}
+                    from rx import lex as _lexC
+                    toksC = [t for t in _lexC(body) if t.kind not in ('ws', 'lcomment', 'bcomment', 'doc')]
+                    want = int(m7.group(1) or 1); seen = 0; text = None
+                    for k, t in enumerate(toksC):
+                        if t.kind == 'id' and t.text == 'if' and not (k + 1 < len(toksC) and toksC[k + 1].kind == 'id' and toksC[k + 1].text == 'let'):
+                            seen += 1
+                            if seen < want:
+                                continue
+                            depth = 0; endk = None
+                            for k2 in range(k + 1, len(toksC)):
+                                tt = toksC[k2]
+                                if tt.kind == 'p':
+                                    if tt.text in '([':
+                                        depth += 1
+                                    elif tt.text in ')]':
+                                        depth -= 1
+                                    elif tt.text == '{' and depth == 0:
+                                        endk = k2; break
+                            if endk is not None:
+                                text = m7.group(2).replace('{}', body[toksC[k + 1].start:toksC[endk].start].strip())
+                            break
+                    if text is None:
+                        raise ExtractError(f'lost anchor: `if` #{want} not found in {relpath}::{fname}')
                 elif m2:
                     pos = find_stmt(body, m2.group(1))
                     if pos is None:
